@@ -88,6 +88,9 @@ fn run_suite(suite: &str, seed: u64, thorough: bool, out: &str, shards: usize) {
                             "apply" => gen::gen_apply(seed, &tier, shard, shards, &mut emit),
                             "node" => gen::gen_node(seed, &tier, shard, shards, &mut emit),
                             "wire" => gen::gen_wire(seed, &tier, shard, shards, &mut emit),
+                            "fd" => gen::gen_fd(seed, &tier, shard, shards, &mut emit),
+                            "cluster" => gen::gen_cluster(seed, &tier, shard, shards, &mut emit),
+                            "catchup" => gen::gen_catchup(seed, &tier, shard, shards, &mut emit),
                             "mtu" => gen::gen_mtu(seed, &tier, shard, shards, &mut emit),
                             _ => usage(),
                         }
@@ -103,6 +106,7 @@ fn run_suite(suite: &str, seed: u64, thorough: bool, out: &str, shards: usize) {
                     sink.model_in.flush().unwrap();
                     sink.impl_out.flush().unwrap();
                     sink.raw.flush().unwrap();
+                    *sink.stats.entry("tie_band_nudges".to_string()).or_default() += sink.exec.tie_skips;
                     (sink.stats, sink.lines, sink.cases)
                 })
                 .unwrap()
